@@ -10,13 +10,15 @@ Code modelled (read in /repo at the time of writing):
   - `Seed for T: NoUninit` = `bytes_of(self)` (native = little-endian bytes, 32-byte keys, arrays as is),
   - `SeedsWithBump::seeds_with_bump` 83-94: the last slot is REPLACED by `[bump]` when it is empty,
     otherwise `[bump]` is pushed,
-  - `validate_and_set_seeds` 241-255: already set → `Ok`; `find_program_address(seeds(), P)`;
-    compare with the account key; record `(seeds, bump)`,
+  - `without_bump_placeholder` (commit 801ca3a): pops a trailing EMPTY seed,
+  - `validate_and_set_seeds`: already set → `Ok`;
+    `find_program_address(without_bump_placeholder(seeds()), P)`; compare with the account key;
+    record `(seeds, bump)`,
   - `validate_and_set_seeds_with_bump` 257-275: already set → `Ok`;
     `create_program_address(seeds_with_bump(), P)?`; compare; record the argument,
   - `access_seeds` (panics when unset), `signer_seeds` = `seeds_with_bump` of the recorded value;
-* `star_frame/src/client.rs` 58-72: `find_program_address(seeds(), ID)`;
-  `create_program_address(seeds() ++ [[bump]], ID)` (PUSH after the empty slot);
+* `star_frame/src/client.rs`: `find_program_address(without_bump_placeholder(seeds()), ID)`;
+  `create_program_address(without_bump_placeholder(seeds()) ++ [[bump]], ID)`;
 * `solana-address 1.0.0` `create_program_address` / `try_find_program_address` (native branch):
   more than 16 seeds or a seed longer than 32 bytes → `MaxSeedLengthExceeded`; the hash is taken over
   the CONCATENATION of the seeds, then program id and marker; on-curve → `InvalidSeeds`;
@@ -117,20 +119,35 @@ type is itself a padding-free `NoUninit` struct (`#[repr(C)]` / `#[repr(C, packe
 struct). A zero-sized field (`[u8; 0]`, a unit struct) is an EMPTY component. -/
 def compBytes (c : List FieldVal) : List Nat := (c.map bytesOf).flatten
 
-/-- A value of a `#[derive(GetSeeds)]` struct: the optional `seed_const` and the fields in
-declaration order. -/
+/-- A `GetSeeds` value: the optional `seed_const` and the fields in declaration order.
+`placeholder = true` is what `#[derive(GetSeeds)]` (and the blanket impl, and a hand-written impl
+following the trait documentation) produce: `seeds()` ends with an EMPTY slot reserved for the bump.
+`placeholder = false` is a hand-written `GetSeeds` that returns just its real seeds. -/
 structure SeedStruct where
   const : Option (List Nat)
   fields : List (List FieldVal)
+  placeholder : Bool
   deriving DecidableEq, Repr
 
 /-- The seeds the user means: constant prefix, then every field. -/
 def userSeeds (S : SeedStruct) : List (List Nat) :=
   S.const.toList ++ S.fields.map compBytes
 
-/-- Derived `GetSeeds::seeds()`: the user seeds plus the trailing empty slot. -/
+/-- `GetSeeds::seeds()`: the user seeds plus (derived impls) the trailing empty slot. -/
 def seeds (S : SeedStruct) : List (List Nat) :=
-  userSeeds S ++ [[]]
+  userSeeds S ++ (if S.placeholder then [[]] else [])
+
+/-- `without_bump_placeholder` (repo commit 801ca3a): pops the last seed iff it is empty. Used by the
+`find` validation path and by both client helpers. Note that for a hand-written `GetSeeds` without a
+placeholder whose LAST REAL seed is empty this pops a real seed — which does not change the hashed
+bytes, only the slot count. -/
+def dropTrailingEmpty (ss : List (List Nat)) : List (List Nat) :=
+  match ss.getLast? with
+  | some [] => ss.dropLast
+  | _ => ss
+
+/-- The seed list every path hands to the runtime next to the bump. -/
+def effSeeds (S : SeedStruct) : List (List Nat) := dropTrailingEmpty (seeds S)
 
 /-- `SeedsWithBump::seeds_with_bump` on an arbitrary seed vector: replace an empty last slot,
 otherwise push. -/
@@ -165,7 +182,7 @@ def validateSeeds (H : Hash) (P : List Nat) (S : SeedStruct) (st : Seeded) : VRe
   match st.recorded with
   | some _ => (.ok, st)
   | none =>
-    match find H (seeds S) P with
+    match find H (dropTrailingEmpty (seeds S)) P with
     | none => (.panic, st)
     | some (addr, bump) =>
       if addr = st.key then (.ok, { st with recorded := some ⟨S, bump⟩ })
@@ -210,11 +227,11 @@ def signerSeeds (st : Seeded) : Option (List (List Nat)) :=
 
 /-- Client `FindProgramAddress::find_program_address` (`none` = panic). -/
 def clientFind (H : Hash) (P : List Nat) (S : SeedStruct) : Option (List Nat × Nat) :=
-  find H (seeds S) P
+  find H (dropTrailingEmpty (seeds S)) P
 
-/-- Client `FindProgramAddress::create_program_address`: pushes the bump AFTER the empty slot. -/
+/-- Client `FindProgramAddress::create_program_address`: drops the placeholder, pushes the bump. -/
 def clientCreate (H : Hash) (P : List Nat) (S : SeedStruct) (bump : Nat) :
     Except CreateErr (List Nat) :=
-  create H (seeds S ++ [[bump]]) P
+  create H (dropTrailingEmpty (seeds S) ++ [[bump]]) P
 
 end Account.Seeds
